@@ -25,9 +25,12 @@ def parse_ents(s):
         d = {}
         if cs:
             for kv in cs.split("+"):
-                k, v = kv.split("=")
+                if "=" not in kv or not kv.split("=")[0].isdigit():
+                    d[-1] = kv                # a component the harness cannot name (garbled message)
+                    continue
+                k, v = kv.split("=", 1)
                 d[int(k)] = v
-        out[int(e)] = d
+        out[int(e) if e.isdigit() else -1] = d          # -1: an entity the server does not have (garbled message)
     return out
 
 
@@ -412,6 +415,9 @@ class Trace:
                         c, ty, sq = int(f[1]), f[2], int(f[4].split(":")[0])
                         tk = f[3][2:]
                         stamps[(c, sq)] = None if tk == "-" else int(tk)
+                        if ty != "SEI" and not ran:
+                            self.add("C04", i, "dependent event %d was put on the wire for client %d in a server frame without a replication tick: what the world changed since the last "
+                                               "tick is not replicated yet, so the event outruns the replication it depends on" % (sq, c))
                         # the event depends on everything replicated to this client so far (this frame's update message included)
                         last_upd = None
                         for l2 in block:
@@ -466,6 +472,10 @@ class Trace:
                             self.add("C07", i, "replication message sent to a client that is not authorized: %s" % l)
                         view = snapshots.get((epoch, tick_now, c), {})
                         body = parse_ents(kv_field(l, "chg") if f[0] == "upd" else kv_field(l, "body"))
+                        if -1 in body or any(-1 in cs_ for cs_ in body.values()):
+                            for p_ in ("C01", "C02", "C03"):
+                                self.add(p_, i, "the server sent a replication message naming an entity or component it does not have (garbled ranges): %s" % l)
+                            body = {e_: {k_: v_ for k_, v_ in cs_.items() if k_ != -1} for e_, cs_ in body.items() if e_ != -1}
                         for e in body:
                             if e not in view:
                                 self.add("C08", i, "message to client %d carries data of entity %d which is not visible/replicated to it at this tick: %s" % (c, e, l))
